@@ -175,11 +175,11 @@ def scenario_trace(tid, sc, rn, rf):
 
 
 # ------------------------------------------------------------------------------------------------ M + R
-def se_cfg(K, chunk, tf, n, spacing, invs, constraint=True, gaps=True, innerfix=False):
+def se_cfg(K, chunk, tf, n, spacing, invs, constraint=True, gaps=True, innerfix=False, partial_raises=False):
     b = lambda x: "TRUE" if x else "FALSE"
     return ("SPECIFICATION Spec\nVIEW View\nCHECK_DEADLOCK FALSE\n"
-            "CONSTANTS K = %d Chunk = %d TF = %d NMin = %d Gaps = %s Spacing = %s InnerFix = %s\n"
-            % (K, chunk, tf, n, b(gaps), b(spacing), b(innerfix))
+            "CONSTANTS K = %d Chunk = %d TF = %d NMin = %d Gaps = %s Spacing = %s InnerFix = %s PartialChunkRaises = %s\n"
+            % (K, chunk, tf, n, b(gaps), b(spacing), b(innerfix), b(partial_raises))
             + ("CONSTRAINT InPre\n" if constraint else "") + "".join("INVARIANT %s\n" % i for i in invs))
 
 
@@ -226,7 +226,7 @@ def bind(ctx, scens, label, stats):
 
 def model_part(ctx):
     jobs, labels = [], []
-    q = [(3, 2, 2, 6), (3, 3, 3, 6), (4, 2, 2, 4), (3, 2, 4, 8), (3, 1, 3, 6), (4, 1, 1, 3)]
+    q = [(3, 2, 2, 6), (3, 3, 3, 6), (4, 2, 2, 4), (3, 2, 4, 8), (3, 1, 3, 6), (4, 1, 1, 3), (3, 2, 2, 5), (3, 3, 3, 5)]
     t = q + [(4, 2, 2, 6), (5, 2, 2, 4), (4, 2, 4, 8), (4, 1, 3, 6), (5, 1, 1, 4), (3, 3, 3, 9)]
     for (K, ch, tf, n) in ctx.pick(q, t):
         jobs.append(dict(module="SimEquiv", cfg_text=se_cfg(K, ch, tf, n, True, ["Equiv", "NoErr"]), workers=4, coverage=True,
@@ -276,7 +276,8 @@ def binding_part(ctx):
     # chunk-end state where the simulators differ; each witness is replayed on the code
     dres = tlc.run_parallel([
         dict(module="SimEquiv", cfg_text=se_cfg(3, 3, 3, 6, False, ["Diverge", "NoErr"]), workers=4, timeout=2400),
-        dict(module="SimEquiv", cfg_text=se_cfg(3, 3, 3, 5, True, ["Diverge", "NoErr"]), workers=4, timeout=2400)], max_procs=2)
+        dict(module="SimEquiv", cfg_text=se_cfg(3, 3, 3, 5, True, ["Diverge", "NoErr"], partial_raises=True), workers=4,
+             timeout=2400)], max_procs=2)
     dsc = scenarios_from(dres[0], "DIVERGE", 3, 3, 3)
     rsc = scenarios_from(dres[1], "DIVERGE", 3, 3, 3)
     if not dsc:
@@ -286,9 +287,8 @@ def binding_part(ctx):
     before = stats['and_the_code_differs_too']
     bind(ctx, dsc, "diverge-fills-only", stats)
     n_div_conf = stats['and_the_code_differs_too'] - before
-    before = stats['and_the_code_differs_too']
-    bind(ctx, rsc, "diverge-ragged", stats)
-    n_rag_conf = stats['and_the_code_differs_too'] - before
+    # (the ragged-length witnesses belong to the seeded former defect PartialChunkRaises = TRUE; the repaired code is bound
+    #  through the random scenarios, a twelfth of which end in a partial chunk)
     # T (model binding): random scenarios, larger lattices and real 5m / 15m timeframes
     rng = random.Random(ctx.seed + 12)
     n_rand = ctx.pick(300, 6000)
@@ -302,7 +302,7 @@ def binding_part(ctx):
         "model_says_simulators_differ": stats['model_says_simulators_differ'],
         "of_which_the_code_differs_too": stats['and_the_code_differs_too'],
         "divergences_with_fill_count_antecedent_only": {"found_by_tlc": len(dsc), "reproduced_on_code": n_div_conf},
-        "divergences_ragged_length": {"found_by_tlc": len(rsc), "reproduced_on_code": n_rag_conf},
+        "seeded_partial_chunk_defect_divergences_found_by_tlc": len(rsc),
         "model_binding_mismatches_inside_the_quantifier": len(stats['mismatch_in']),
         "model_binding_mismatches_outside_the_quantifier": len(stats['mismatch_out']),
         "divergence_sample": dsc[0]["hist"],
